@@ -307,6 +307,12 @@ impl<'a> Model<'a> {
     }
 
     fn parse(text: &str) -> Result<Vec<Item>, String> {
+        Self::parse_with(text, false)
+    }
+
+    /// `recover`: a prefix-less multi-line directive line (an error) is kept as text and parsing goes on,
+    /// which is how clean mode, which ignores directive errors, has to read the rest of the file
+    fn parse_with(text: &str, recover: bool) -> Result<Vec<Item>, String> {
         let lines = split_lines(text);
         let mut items = vec![];
         let mut i = 0;
@@ -318,6 +324,11 @@ impl<'a> Model<'a> {
                 }
                 Some(head) => {
                     if head.kind.multi() && head.prefix.is_empty() {
+                        if recover {
+                            items.push(Item::Text(lines[i].to_string()));
+                            i += 1;
+                            continue;
+                        }
                         // the error is raised when the line is reached: everything before it still happens
                         items.push(Item::Dir { head, args: vec![], eof: false });
                         return Ok(items);
@@ -525,6 +536,21 @@ impl<'a> Model<'a> {
 /// lines of directive output: like split_lines, used for indentation
 fn split_lines_keep(raw: &str) -> Vec<&str> {
     split_lines(raw)
+}
+
+/// Temp targets named by the real temp directives of a source, by the reference grammar (C07/C10).
+/// None if the source leaves the compared domain (Q4).
+pub fn temp_targets(text: &str) -> Option<Vec<String>> {
+    let items = Model::parse_with(text, true).ok()?;
+    let mut v = vec![];
+    for it in items {
+        if let Item::Dir { head, args, .. } = it {
+            if head.kind == Kind::Temp && !args.is_empty() {
+                v.push(args[0].clone());
+            }
+        }
+    }
+    Some(v)
 }
 
 /// Command menu of DESIGN 4.4: stdout / failure as a function of the command text
